@@ -425,6 +425,12 @@ def parse_index(arr, key):
             ka = k if isinstance(k, SArr) else from_list(k)
             if ka.dtype == 'bool':
                 raise Unsupported("boolean mask inside tuple index")
+            if ka.ndim == 1 and conc_int(ka.shape[0]) is not None and conc_int(ka.shape[0]) <= 8 and ka.affine is None:
+                for q in range(conc_int(ka.shape[0])):
+                    e = ka.at((q,))
+                    ok = And(Sym.lift(e) >= -Sym.lift(n), Sym.lift(e) < n) if not (is_conc(e) and is_conc(n)) else (-n <= e < n)
+                    if not _interp().branch(ok):
+                        raise PyRaise('IndexError', 'index out of bounds (fancy)')
             items.append(('fancy', ka, n))
         else:
             items.append(('int', _norm_int_index(k, n)))
@@ -493,10 +499,10 @@ def parse_index(arr, key):
                 res.append(it[1])
             else:
                 f = it[1]
-                _, mf, _ = broadcast_shapes(f.shape, fshape)
-                v = f.at(_sub_idx(fidx, [True if conc_int(d) != 1 or conc_int(fd) == 1 else False
-                                         for d, fd in zip(f.shape, fshape[nf - f.ndim:])] if False else
-                                  _bmask(f.shape, fshape), nf, f.ndim))
+                v = f.at(_sub_idx(fidx, _bmask(f.shape, fshape), nf, f.ndim))
+                n_dim = it[2]
+                if not (is_conc(v) and v >= 0):
+                    v = sym_if(Sym.lift(v) < 0, v + n_dim, v)     # negative fancy indices wrap
                 res.append(v)
                 if not done_f:
                     p += nf
